@@ -51,7 +51,14 @@ fn var_index(v: &Unifiable) -> usize { if let Unifiable::LogicVar{name, ..} = v 
 
 // ------------------------------------------------------------------------------ C14
 
+/// doubles that are neighbours (1 ulp apart), tiny, or integers next to a double
+fn near_floats() -> Vec<Unifiable> {
+    vec![SFloat(0.1), SFloat(0.10000000000000002), SFloat(0.3), SFloat(0.30000000000000004), SFloat(1.0000000000000002), SFloat(0.9999999999999999),
+         SFloat(1e-300), SFloat(-1e-300), SFloat(5e-324), SFloat(1.5), SFloat(-1.0)]
+}
+
 fn gen_cmp_operand(r: &mut Rng) -> Unifiable {
+    if r.chance(1, 4) { return r.pick(&near_floats()).clone(); }
     match r.below(24) {
         0 => SInteger(0), 1 => SInteger(1), 2 => SInteger(-1), 3 => SInteger(2), 4 => SInteger(i64::MAX), 5 => SInteger(i64::MIN),
         6 => SInteger(9007199254740993), 7 => SInteger(9007199254740992),
@@ -130,6 +137,7 @@ pub fn run_cmp_exhaustive(out: &mut Out, cfg: &Cfg, shard: usize, nshards: usize
         SFloat(0.0), SFloat(-0.0), SFloat(1.0), SFloat(0.5), SFloat(-1.5), SFloat(9007199254740992.0), SFloat(2.0), SFloat(9.223372036854775807e18),
         atom!("a"), atom!("b"), atom!("ab"), atom!("a b"), atom!("é"), atom!("Z"), atom!("10"), atom!("9")];
     for f in fixed { ops.push(Some(f)); }
+    for f in near_floats() { ops.push(Some(f)); }
     ops.push(None); ops.push(Some(proper_list(vec![SInteger(1)], None))); ops.push(Some(scomplex!(atom!("f"), SInteger(1))));
     let mut idx = 0;
     for op in CMP { for a in &ops { for b in &ops { for chain in [false, true] {
@@ -266,6 +274,32 @@ fn gen_list_arg_of(ctx: &mut Ctx, r: &mut Rng, elems: Vec<Unifiable>) -> (Unifia
 
 fn enc_list(elems: &[Unifiable]) -> String { term_str(&proper_list(elems.to_vec(), None)) }
 
+/// a resolved list whose tail variable was bound to a list is the same list logically as the proper list of all
+/// its elements: rebuild it (recursively) so that results can be compared with the expected proper list
+fn normalize_lists(t: &Unifiable) -> Unifiable {
+    match t {
+        Unifiable::SLinkedList{..} => {
+            let mut elems = vec![]; let mut tail: Option<Unifiable> = None;
+            let mut cur = t;
+            loop {
+                match cur {
+                    Unifiable::SLinkedList{term, next, tail_var, ..} => {
+                        if **term == Unifiable::Nil { break; }
+                        if *tail_var {
+                            match &**term { Unifiable::SLinkedList{..} => { cur = &**term; continue; }, other => { tail = Some(normalize_lists(other)); break; } }
+                        }
+                        elems.push(normalize_lists(term)); cur = &**next;
+                    },
+                    _ => break,
+                }
+            }
+            proper_list(elems, tail)
+        },
+        Unifiable::SComplex(a) => Unifiable::SComplex(a.iter().map(normalize_lists).collect()),
+        _ => t.clone(),
+    }
+}
+
 pub fn run_append_random(out: &mut Out, cfg: &Cfg, seed: u64, n: usize, no_tails: bool) {
     let mut r = Rng::new(seed);
     for _ in 0..n {
@@ -278,6 +312,16 @@ pub fn run_append_random(out: &mut Out, cfg: &Cfg, seed: u64, n: usize, no_tails
             else { let v = match r.below(4) { 0 => atom!("z"), 1 => SInteger(5), 2 => scomplex!(atom!("g"), atom!("y")), _ => SFloat(0.5) };
                    let w = ctx.operand(&mut r, v.clone()); args.push(w); expected.push(v); }
         }
+        // the output argument: an unbound variable, or a variable already bound to an open list `[$V1, .. | $T]`
+        // (then append succeeds exactly when the result has at least that many elements), or to a closed list
+        // of variables (exactly that many)
+        let mut min_len: Option<usize> = None; let mut exact: Option<usize> = None;
+        if r.chance(1, 4) {
+            let k = 1 + r.below(3);
+            let vs: Vec<Unifiable> = (0..k).map(|_| ctx.fresh()).collect();
+            if r.chance(2, 3) { let t = ctx.fresh(); ctx.prior.push(unify_goal(res.clone(), proper_list(vs, Some(t)))); min_len = Some(k); }
+            else { ctx.prior.push(unify_goal(res.clone(), proper_list(vs, None))); exact = Some(k); }
+        }
         args.push(res.clone());
         let c = make_case(&ctx, Some(bip("append", args)));
         let info = match emit_info(out, cfg, &c) { Some(i) => i, None => continue };
@@ -285,10 +329,12 @@ pub fn run_append_random(out: &mut Out, cfg: &Cfg, seed: u64, n: usize, no_tails
         let verdict: Result<(), String> = (|| {
             if info.rec.ends_with("P") { return Err("append panicked".into()); }
             let n_ans = info.answers.iter().filter(|x| x.is_some()).count();
-            if n_ans != 1 { return Err(format!("append gave {} answers (expected exactly one)", n_ans)); }
+            let fits = match (min_len, exact) { (Some(k), _) => expected.len() >= k, (_, Some(k)) => expected.len() == k, _ => true };
+            if !fits { return if n_ans == 0 { Ok(()) } else { Err(format!("append succeeded although its {} elements cannot match the output pattern", expected.len())) }; }
+            if n_ans != 1 { return Err(format!("append gave {} answers (expected exactly one{})", n_ans, if min_len.is_some() || exact.is_some() { "; the output argument is a list pattern that the result matches" } else { "" })); }
             let ans = info.answers[0].as_ref().unwrap();
             let got = answer_arg(ans, var_index(&res)).ok_or("cannot read the result")?;
-            if term_str(&got) != enc_list(&expected) { return Err(format!("append result is {} but the elements of the arguments are {}", got, proper_list(expected.clone(), None))); }
+            if term_str(&normalize_lists(&got)) != enc_list(&expected) { return Err(format!("append result is {} but the elements of the arguments are {}", got, proper_list(expected.clone(), None))); }
             Ok(())
         })();
         match verdict { Ok(()) => out.oracle(info.id, "C16", true, ""), Err(m) => out.oracle(info.id, "C16", false, &m) }
